@@ -43,6 +43,14 @@ pub assume_specification [i64::saturating_add] (a: i64, b: i64) -> (r: i64)
 pub assume_specification [i64::abs_diff] (a: i64, b: i64) -> (r: u64)
     ensures r as int == (if a >= b { a - b } else { b - a });
 
+// `if n < 0.0 { n.floor() } else { n.ceil() }.into()` (KNumber, K-number's territory): the integer
+// the number is compared as (rule R5)
+#[verifier::external_body]
+pub struct KNumber { _p: u8 }
+impl KNumber { pub uninterp spec fn as_index(&self) -> i64; }
+#[verifier::external_body]
+fn number_away_from_zero(n: KNumber) -> (r: i64) ensures r == n.as_index() { unimplemented!() }
+
 // i32::try_from(i64) (std): assumed contract
 #[verifier::external_body]
 fn i32_try_from(x: i64) -> (r: Result<i32, ()>)
@@ -185,6 +193,18 @@ UNIT = Unit(
         // the number of elements the range yields (descending ranges are empty); no overflow
         self.bounded() && self.hi() <= i64::MAX ==> (r matches Some(n) && n as int == self.count()),    // @size_is_element_count
         self.bounded() ==> r is Some,
+"""),
+
+        Fn(F, "impl KRange :: fn contains", props=P,
+           subst=[("let n: i64 = if n < 0.0 { n.floor() } else { n.ceil() }.into();", "let n: i64 = number_away_from_zero(n);", 1)],
+           spec=r"""
+    ensures
+        // membership is exact, also for an inclusive end at i64::MAX (where the exclusive end does
+        // not fit an i64); descending ranges contain nothing
+        self.bounded() ==> r == (self.lo() <= n.as_index() < self.hi()),                                 // @bounded_membership_exact
+        self.0 is From ==> r == (n.as_index() >= self.lo()),                                             // @from_membership
+        self.0 is To ==> r == (n.as_index() < self.hi()),                                                // @to_membership
+        self.0 is Unbounded ==> r,                                                                       // @unbounded_contains_everything
 """),
     ],
     epilogue=r"""
